@@ -149,6 +149,10 @@ def check(prop, tier, args):
     if tot['signals']:
         print('note: %d other-property signals (see evidence)'
               % len(tot['signals']))
+        for sg in tot['signals'][:3]:
+            print('  signal: oracle=%s seed=%s: %s'
+                  % (sg['oracle'], sg.get('seed', sg.get('case')),
+                     sg['detail'][:300].replace('\n', ' | ')))
     return 0
 
 
